@@ -399,7 +399,7 @@ pub fn run(ctx: &Ctx) -> i32 {
     );
     let gates = ctx.gates_for("C05");
     let off = gates.off_list();
-    let cases = ctx.tier.pick(20_000, 400_000);
+    let cases = ctx.tier.pick(150_000, 2_000_000);
     let out = run_tapes("C05ab", ctx.seed, ctx.threads, cases, 900, |tape, stats, counting| {
         let g = Gates::with_off(off.clone());
         check_tape_ab(tape, &g, stats, counting)
